@@ -2,9 +2,9 @@
 # usage: runall.sh quick|thorough [ids...]  - runs the checks one after another, summary at the end
 tier=${1:-quick}; shift
 ids=${@:-C01 C02 C03 C04 C05 C06 C07 C08 C09 C10 C11 C12 C13 C14 C15 C16 C17 C18 C19 C20}
-cd /verif; mkdir -p work
+cd /verif; LOGDIR=${VERIF_WORK:-work}; mkdir -p $LOGDIR
 for id in $ids; do
   t0=$(date +%s)
-  ./check $id $tier > work/run-$id-$tier.log 2>&1; rc=$?
-  echo "$id $tier exit=$rc wall=$(( $(date +%s) - t0 ))s $(grep -c '^VIOLATION' work/run-$id-$tier.log) violations $(grep -c '^KNOWN-FINDING' work/run-$id-$tier.log) known"
+  ./check $id $tier > $LOGDIR/run-$id-$tier.log 2>&1; rc=$?
+  echo "$id $tier exit=$rc wall=$(( $(date +%s) - t0 ))s $(grep -c '^VIOLATION' $LOGDIR/run-$id-$tier.log) violations $(grep -c '^KNOWN-FINDING' $LOGDIR/run-$id-$tier.log) known"
 done
